@@ -200,7 +200,27 @@ func (server *Server) setupServe() {
 	// start HTTP/1.1 server
 	if server.http1ConnChannelListener == nil {
 		server.http1ConnChannelListener = hack.NewChannelListener(server.ctx)
+		server.protectConnStateHook()
 		go server.serveHTTP1()
+	}
+}
+
+// net/http calls the ConnState hook for new connections on the goroutine that
+// runs Serve, outside of any recover. Wrap the user's hook so that a panic in
+// it only costs the connection it was called for instead of the whole proxy.
+func (server *Server) protectConnStateHook() {
+	hook := server.HTTPServer.ConnState
+	if hook == nil {
+		return
+	}
+	server.HTTPServer.ConnState = func(c net.Conn, state http.ConnState) {
+		defer func() {
+			if r := recover(); r != nil {
+				server.logf("panic in ConnState hook (%s): %v", c.RemoteAddr(), r)
+				c.Close()
+			}
+		}()
+		hook(c, state)
 	}
 }
 
